@@ -50,6 +50,12 @@ def plan(tier, seed):
                 for second in V4:
                     for kind in ("metric", "obs"):
                         items.append(dict(L=L, first=first, second=second, kind=kind, vals=V4, pmax=5, fit=False))
+    # monitored values that are not numbers: a NaN deviation is not below any tolerance
+    NANV = V + [float("nan")]
+    for L in (2, 3):
+        for first in range(len(NANV)):
+            for kind in ("metric", "obs"):
+                items.append(dict(L=L, first_index=first, kind=kind, vals="nan", pmax=2, fit=(L == 2)))
     items.append(dict(layer="constructor"))
     return items
 
@@ -150,7 +156,7 @@ def check(acc, seq, patience, Pe, Ps, crit, tol, kind, through_fit, flagged, sto
     epochs = L * Pe
     sds = [0.5 + 0.25 * i for i in range(L)]
     want, flag_ = ref_stop_epoch(seq, [2 * s * s for s in sds], Pe, Ps, patience, crit, tol, epochs)
-    case = dict(seq=list(seq), patience=patience, P_eval=Pe, P_stop=Ps, criterion=crit, tolerance=("inf" if tol == INF else tol), kind=kind,
+    case = dict(seq=[("nan" if x != x else x) for x in seq], patience=patience, P_eval=Pe, P_stop=Ps, criterion=crit, tolerance=("inf" if tol == INF else tol), kind=kind,
                 through_fit=through_fit, stopper=stopper)
     acc.ev(1, nontrivial=(epochs // Pe) >= patience + 1)
     try:
@@ -241,6 +247,9 @@ def run_item(item):
         return acc
     L, kind, vals = item["L"], item["kind"], item["vals"]
     flagged = set()
+    if vals == "nan":
+        vals = V + [float("nan")]
+        item = dict(item, first=vals[item["first_index"]])
     fixed = [item["first"]] + ([item["second"]] if "second" in item else [])
     with contextlib.redirect_stdout(io.StringIO()):
         for rest in itertools.product(vals, repeat=L - len(fixed)):
@@ -257,7 +266,7 @@ def run_item(item):
                             if crit == "variance" and Pe == 1:
                                 check(acc, seq, patience, Pe, Ps, crit, tol, kind, False, flagged, stopper="VarianceBasedEarlyStopping")
     acc.states = acc.evaluations
-    acc.sample(dict(seq=list(fixed) + [vals[0]] * (L - len(fixed)), patience=1, P_eval=1, P_stop=1, criterion="absolute", tolerance=0.05, kind=kind), cap=1)
+    acc.sample(dict(seq=[("nan" if x != x else x) for x in (list(fixed) + [vals[0]] * (L - len(fixed)))], patience=1, P_eval=1, P_stop=1, criterion="absolute", tolerance=0.05, kind=kind), cap=1)
     return acc
 
 
@@ -267,6 +276,6 @@ def replay(case):
         run_constructor(acc)
         return acc
     tol = INF if case["tolerance"] == "inf" else case["tolerance"]
-    check(acc, tuple(case["seq"]), case["patience"], case["P_eval"], case["P_stop"], case["criterion"], tol, case["kind"], case["through_fit"], set(),
+    check(acc, tuple(float("nan") if x == "nan" else x for x in case["seq"]), case["patience"], case["P_eval"], case["P_stop"], case["criterion"], tol, case["kind"], case["through_fit"], set(),
           case.get("stopper", "EarlyStopping"))
     return acc
